@@ -7,6 +7,8 @@
 //!   derived <Type> <seed>          \t ok|ne:…|err:…|panic:…
 //!   embed <ctx> <kind> <seed>      \t same|diff:<what>
 //!   json <mode> <value desc>       \t <hex of output>|err:<ErrorKind> \t alpha:ok|alpha:bad:<c>|alpha:na \t sj:ok|sj:bad|sj:skip:<why>|sj:refused
+//!   rk <method> <repr>/<how> <value desc>  \t <probe text>|err|panic|owned/borrowed-differ [..] [..]   (c16_parts/reprs.rs)
+//!   ff [-]<bits of the magnitude>   \t <hex of the token serde_json prints> \t rt:ok|rt:bad (Rust's reader)
 //!
 //! usage: c16 gen <quick|thorough> | c16 one <case fields…>
 #[path = "c16_parts/de.rs"]
@@ -19,6 +21,8 @@ mod lazy;
 mod more;
 #[path = "c16_parts/regbuf.rs"]
 mod regbuf;
+#[path = "c16_parts/reprs.rs"]
+mod reprs;
 #[path = "c16_parts/shape.rs"]
 mod shape;
 #[path = "c16_parts/stdtypes.rs"]
@@ -1463,6 +1467,19 @@ fn main() {
             for n in warms {
                 writeln!(out, "warm {}\t{}", n, more::run_warm(n)).unwrap();
             }
+            // every Deserializer method on every representation of a value (a generator of its own: the
+            // streams above keep their cases)
+            let rr = &mut Rng::new(seed ^ 0x726b_7265_7072);
+            for src in reprs::universe(rr, if thorough { 400 } else { 12 }) {
+                for m in reprs::METHODS {
+                    writeln!(out, "{}\t{}", src.case(m), src.run(m)).unwrap();
+                }
+            }
+            // the token printed for a finite double (every binade boundary, decimal powers, random patterns)
+            for (i, bits) in reprs::ff_universe(rr, if thorough { 60_000 } else { 1_500 }).into_iter().enumerate() {
+                let neg = i % 7 == 3;
+                writeln!(out, "ff {}{}\t{}", if neg { "-" } else { "" }, bits, reprs::run_ff(bits, neg)).unwrap();
+            }
         }
         Some("one") => {
             let stream = args.get(2).map(|s| s.as_str()).unwrap_or("");
@@ -1520,6 +1537,14 @@ fn main() {
                     }
                 }
                 "warm" => more::run_warm(args[3].parse().unwrap()),
+                "ff" => {
+                    let neg = args[3].starts_with('-');
+                    reprs::run_ff(args[3].trim_start_matches('-').parse().unwrap(), neg)
+                }
+                "rk" => {
+                    let (m, src) = reprs::parse_case(&rest).expect("rk <method> <repr>/<how> <value>");
+                    src.run(&m)
+                }
                 "sjson" => {
                     let body = args[4..].join(" ");
                     let (s, d) = body.split_once(" ; ").expect("sjson <mode> <shape> ; <data>");
